@@ -25,8 +25,17 @@ use std::sync::Mutex;
 use std::time::{Duration, Instant};
 
 pub const ENV: &str = "VC_LOAD_WORKER";
-/// CPU seconds one case may burn before it is called a hang.
+/// CPU seconds one case may burn in the parsing phases before it is called a hang.
 const HANG_CPU_S: f64 = 20.0;
+/// CPU seconds for the phases that execute the model (constant folding during
+/// an optimising load, `Model::run`): running time is the model's own resource
+/// use, which rten does not limit (docs/security.md); the case is abandoned.
+const EXEC_CPU_S: f64 = 5.0;
+
+/// Does this phase execute model operators?
+pub fn executes_model(phase: &str) -> bool {
+    phase.starts_with("run:") || phase == "load(buf,opt)" || phase == "load_mmap(opt)"
+}
 /// Wall seconds without an answer (and without that much CPU) before giving up.
 const STALL_WALL_S: u64 = 300;
 
@@ -130,6 +139,8 @@ impl Worker {
             .env("VCORE_CHILD", "1")
             // a small pool is enough, and 12 workers x 16 threads would not help anyone
             .env("RTEN_NUM_THREADS", "2")
+            // symbolising a backtrace for an expected abort costs seconds
+            .env("RUST_BACKTRACE", "0")
             .env_remove("RTEN_TIMING")
             .stdin(Stdio::piped())
             .stdout(Stdio::piped())
@@ -141,11 +152,13 @@ impl Worker {
         Worker { child, stdin, stdout, dir, stderr_path }
     }
 
-    fn stderr_tail(&self) -> String {
+    /// First lines of the worker's stderr for the current case (the allocation
+    /// failure message comes first, a backtrace may follow).
+    fn stderr_head(&self) -> String {
         let s = std::fs::read(&self.stderr_path).unwrap_or_default();
-        let s = String::from_utf8_lossy(&s);
-        let lines: Vec<&str> = s.lines().rev().take(4).collect();
-        lines.into_iter().rev().collect::<Vec<_>>().join(" | ")
+        let s = String::from_utf8_lossy(&s[..s.len().min(16384)]).to_string();
+        let lines: Vec<&str> = s.lines().filter(|l| !l.trim().is_empty()).take(4).collect();
+        lines.join(" | ")
     }
 
     /// Wait until the worker's stdout is readable; false on timeout.
@@ -193,7 +206,7 @@ impl Worker {
                     }
                 } else {
                     let cpu = cpu_seconds(pid) - cpu0;
-                    let spinning = cpu >= HANG_CPU_S;
+                    let spinning = cpu >= if executes_model(&phase) { EXEC_CPU_S } else { HANG_CPU_S };
                     if spinning || t0.elapsed() > Duration::from_secs(STALL_WALL_S) {
                         let _ = self.child.kill();
                         let _ = self.child.wait();
@@ -210,7 +223,7 @@ impl Worker {
             Ok(s) => (s.signal(), s.code()),
             Err(_) => (None, None),
         };
-        Reply::Died { signal, code, phase, stderr: self.stderr_tail() }
+        Reply::Died { signal, code, phase, stderr: self.stderr_head() }
     }
 }
 
